@@ -28,14 +28,54 @@ const NODE_A: u64 = 100;
 const NODE_B: u64 = 200;
 
 pub fn plant(m: &Matter, local: u64, peer: u64, peer_idx: usize, local_sess: u16, peer_sess: u16) {
+    plant_on(m, local, peer, peer_idx, local_sess, peer_sess, 1, None)
+}
+
+/// A "random" number generator that always yields the same value: the session's first message counter is drawn from it
+#[derive(Copy, Clone)]
+struct FixedRng(u32);
+impl rand_core::RngCore for FixedRng {
+    fn next_u32(&mut self) -> u32 {
+        self.0
+    }
+    fn next_u64(&mut self) -> u64 {
+        ((self.0 as u64) << 32) | self.0 as u64
+    }
+    fn fill_bytes(&mut self, dest: &mut [u8]) {
+        for (i, b) in dest.iter_mut().enumerate() {
+            *b = self.0.to_le_bytes()[i % 4];
+        }
+    }
+    fn try_fill_bytes(&mut self, dest: &mut [u8]) -> Result<(), rand_core::Error> {
+        self.fill_bytes(dest);
+        Ok(())
+    }
+}
+impl rand_core::CryptoRng for FixedRng {}
+
+/// `fab`: local fabric index of the session (fabrics are created as needed); `ctr0`: the "random" value its first message
+/// counter is derived from
+#[allow(clippy::too_many_arguments)]
+pub fn plant_on(m: &Matter, local: u64, peer: u64, peer_idx: usize, local_sess: u16, peer_sess: u16, fab: u8, ctr0: Option<u32>) {
     m.with_state(|s| {
-        if s.fabrics.iter().count() == 0 {
+        while s.fabrics.iter().count() < fab as usize {
             s.fabrics.add_with_post_init(|_| Ok(())).unwrap();
         }
     });
-    let mut sess = ReservedSession::reserve_now(m, test_only_crypto()).unwrap();
-    sess.update(local, peer, peer_sess, local_sess, sim::addr(peer_idx), SessionMode::Case { fab_idx: NonZeroU8::new(1).unwrap(), cat_ids: Default::default() }, None, None, None, None).unwrap();
-    sess.complete();
+    let mode = SessionMode::Case { fab_idx: NonZeroU8::new(fab).unwrap(), cat_ids: Default::default() };
+    match ctr0 {
+        None => {
+            let mut sess = ReservedSession::reserve_now(m, test_only_crypto()).unwrap();
+            sess.update(local, peer, peer_sess, local_sess, sim::addr(peer_idx), mode, None, None, None, None).unwrap();
+            sess.complete();
+        }
+        Some(c) => {
+            let crypto = rs_matter::crypto::default_crypto(FixedRng(c), rs_matter::dm::devices::test::DAC_PRIVKEY);
+            let mut sess = ReservedSession::reserve_now(m, crypto).unwrap();
+            sess.update(local, peer, peer_sess, local_sess, sim::addr(peer_idx), mode, None, None, None, None).unwrap();
+            sess.complete();
+        }
+    }
 }
 
 fn nm(i: usize) -> &'static str {
@@ -57,8 +97,11 @@ fn one_run(bi: usize, ops: &[Value], rounds: u8, tr: &mut Trace) -> RunOut {
     let net = sim::new_net();
     let a = Matter::new(&TEST_DEV_DET, TEST_DEV_COMM, &TEST_DEV_ATT, 5540);
     let b = Matter::new(&TEST_DEV_DET, TEST_DEV_COMM, &TEST_DEV_ATT, 5540);
-    plant(&a, NODE_A, NODE_B, 1, 1, 1);
-    plant(&b, NODE_B, NODE_A, 0, 1, 1);
+    // {"op": "Config", "ctr0": n} as the first operation: the sessions under test start their message counters from n
+    let ctr0 = ops.first().filter(|o| o["op"] == "Config").and_then(|o| o["ctr0"].as_u64()).map(|x| x as u32);
+    let ops = if ops.first().map(|o| o["op"] == "Config").unwrap_or(false) { &ops[1..] } else { ops };
+    plant_on(&a, NODE_A, NODE_B, 1, 1, 1, 1, ctr0);
+    plant_on(&b, NODE_B, NODE_A, 0, 1, 1, 1, ctr0);
     // idle sessions with other peers (300 + k) on both nodes, so that the session table is almost full: every new
     // unsecured session a schedule provokes (a stray first message of a handshake) then evicts one of them
     for k in 0..14u16 {
@@ -355,6 +398,15 @@ fn id_allocation(tr: &mut Trace) -> Value {
     // two live initiator exchanges (never dropped during the sweep)
     let e1 = crate::c18::poll_once_pub(Exchange::initiate(&a, &crypto, NonZeroU8::new(1).unwrap(), NODE_B)).and_then(|r| r.ok());
     let e2 = crate::c18::poll_once_pub(Exchange::initiate(&a, &crypto, NonZeroU8::new(1).unwrap(), NODE_B + 1)).and_then(|r| r.ok());
+    // a third session, on another fabric, with an open exchange - and expired (its fabric is removed over this very
+    // session): it stays, with its keys and its identifier, until the exchange is done
+    plant_on(&a, NODE_A, NODE_B + 2, 1, 11, 3, 2, None);
+    let e3 = crate::c18::poll_once_pub(Exchange::initiate(&a, &crypto, NonZeroU8::new(2).unwrap(), NODE_B + 2)).and_then(|r| r.ok());
+    a.with_state(|s| {
+        let sid = s.verif_snapshot().sessions.sessions.iter().find(|x| x.local_sess_id == 11).map(|x| x.id);
+        s.verif_sessions_mut().remove_for_fabric(NonZeroU8::new(2).unwrap(), sid);
+    });
+    let expired_busy: Vec<u16> = a.with_state(|s| s.verif_snapshot().sessions.sessions.iter().filter(|x| x.expired && !x.exchanges.is_empty()).map(|x| x.local_sess_id).collect());
     let live_ex: Vec<u16> = a.with_state(|s| s.verif_snapshot().sessions.sessions.iter().flat_map(|x| x.exchanges.iter().filter(|e| e.role <= 1).map(|e| e.exch_id)).collect());
     let live_sess: Vec<u16> = a.with_state(|s| s.verif_snapshot().sessions.sessions.iter().map(|x| x.local_sess_id).collect());
     tr.ev(json!({"ev": "Reset", "run": "ids"}));
@@ -373,8 +425,8 @@ fn id_allocation(tr: &mut Trace) -> Value {
             tr.ev(json!({"ev": "Alloc", "kind": "sess", "v": v, "live": live_sess}));
         }
     }
-    drop((e1, e2));
-    json!({"allocations": n, "live_exchanges": live_ex, "live_sessions": live_sess})
+    drop((e1, e2, e3));
+    json!({"allocations": n, "live_exchanges": live_ex, "live_sessions": live_sess, "expired_but_busy_sessions": expired_busy})
 }
 
 pub fn run(args: &[String]) -> i32 {
